@@ -395,6 +395,14 @@ def build_ops(ck, binary):
         ops.append("hdr " + lib.hexs(hdr + body))
         ops.append("skip " + lib.hexs(section + body))
     ck.count("wellformed_tagged_header_cases", n // 5)
+    # (f) the int16 string-length bound: client ids of 32766 / 32767 bytes round-trip, 32768..65534 wrap to a negative length
+    #     (rejected), 65535 reads as -1 = null (C11's nonflex_string_* theorems are about this wire type)
+    for ln in (32766, 32767, 32768, 40000, 65534, 65535):
+        cid = bytes([0x61 + ln % 7]) * ln
+        op = "enc 18 0 %d %s -" % (ln, lib.hexs(cid))
+        hdr = struct.pack(">hhiH", 18, 0, ln, ln) + cid
+        ENC[op] = hdr
+        ops += [op, "hdr " + lib.hexs(hdr + b"\x01\x02")]
     return ops
 
 
